@@ -174,6 +174,18 @@ macro_rules! define_hasher {
             }
         }
 
+        /// Verification hooks (compiled only with `--cfg cryptocorrosion_verif`): read and
+        /// overwrite the message bit counter, as `(high word << word bits) | low word`.
+        #[cfg(cryptocorrosion_verif)]
+        impl $name {
+            pub fn verif_counter(&self) -> u128 {
+                ((self.t.1 as u128) << (8 * mem::size_of::<$word>())) | self.t.0 as u128
+            }
+            pub fn verif_set_counter(&mut self, v: u128) {
+                self.t = (v as $word, (v >> (8 * mem::size_of::<$word>())) as $word);
+            }
+        }
+
         impl core::fmt::Debug for $name {
             fn fmt(&self, f: &mut core::fmt::Formatter) -> Result<(), core::fmt::Error> {
                 f.debug_struct("(Blake)").finish()
